@@ -530,6 +530,10 @@ func c17StorageRun(r *Rng, it int, vInit, aInit []byte, viol func(kind, what str
 		c17Restart(r, vInit, aInit, viol, count, setTag)
 		return
 	}
+	if it%6 == 4 {
+		c17Bundled(r, viol, count, setTag)
+		return
+	}
 	shifted := it%2 == 1
 	tsbd := uint64(r.Pick(4, 6, 10, 5, 7)) // also depths that are not a multiple of the 2 s segments
 	nSegs := r.Range(8, 16)
@@ -697,6 +701,9 @@ func c17StorageRun(r *Rng, it int, vInit, aInit []byte, viol func(kind, what str
 			if len(stored[t.name]) == 0 {
 				viol("storage-empty", "track "+t.name+" has no stored segment after the run", []string{tag}, nil)
 			}
+		}
+		if what := c17MpdMatchesStored(filepath.Join(dir, "ch")); what != "" && !strings.Contains(what, "not stored") {
+			viol("listed-times-stored", "after the run: "+what, []string{tag}, nil)
 		}
 		if mb, err := os.ReadFile(filepath.Join(dir, "ch", "manifest_timeline_nr.mpd")); err == nil {
 			if m, err := parseMPD(mb); err == nil && len(m.Periods) == 1 {
